@@ -90,12 +90,14 @@ def run(ctx):
         for _ in range(3 if tier == "quick" else 12):
             u = R.choice(["day", "week", "month", "year"]); n = R.randint(1, 30); sign = R.choice([1, -1])
             hh, mi = R.randint(0, 23), R.randint(0, 59)
+            if R.random() < 0.3:
+                hh, mi = b.hour, b.minute      # the clock time written in the phrase is the base's own time of day
             exp = shift(b, sign, {u: n})
             tap = R.random() < 0.5
             st = dict(st0, RETURN_TIME_AS_PERIOD=True) if tap else st0
             if exp is not None:
                 exp2 = exp.replace(hour=hh, minute=mi, second=0, microsecond=0)
-                per = "time" if (tap and exp2 != exp) else period_of({u: n})
+                per = "time" if tap else period_of({u: n})      # the phrase carries a clock time: 'time' whenever time-as-period is requested
                 cases.append({"s": phrase(R, {u: n}, sign) + " %02d:%02d" % (hh, mi), "langs": ["en"], "settings": st,
                               "expect": expect_str(exp2, period=per), "stratum": "time-override"})
         # direction without 'in'/'ago'
